@@ -8,6 +8,9 @@ bcrypt library, whose checker raises for passwords longer than 72 bytes).  A gen
                       CONNECT host:80 (with a presentation) followed by plain HTTP requests inside the tunnel
   reverse / transparent: origin-form requests with an Authorization presentation
   socks5:             RFC 1928 greeting + RFC 1929 username/password + CONNECT + plain HTTP requests
+Validator configuration classes: any, single user, htpasswd with many / one / NO active user (empty file, blank lines only,
+every user commented out) and reloads N users -> 0 users (-> N users); a fixed matrix runs every class on every entry path
+(9 x 7 cells, spread over the workers) before the random cases.  With proxyauth set and nobody valid every request is refused.
 Before the traffic the `proxyauth` option may go through a failing runtime update (bad spec, missing file) or a failing reload
 of the same htpasswd spec after the file was left malformed / deleted; the option keeps its value, so enforcement must continue.
 Presentations: valid (plain, ':' in the password, non-ASCII UTF-8, empty password, lower/upper-case scheme, several SP),
@@ -47,6 +50,7 @@ ENGINE = "sansio"
 BUDGET = {"quick": (500, 18), "thorough": (30000, 220)}
 WORKERS = {"quick": 4, "thorough": 16}
 REQUIRED = ["safety", "answer", "accept", "strip", "total", "path.regular-abs", "path.connect", "path.reverse", "path.transparent", "path.socks5", "path.upstream", "validator.single", "validator.any", "validator.htpasswd", "bcrypt.user_presented", "bcrypt.long_password",
+            "matrix.cells", "validator.class.htp-empty", "validator.class.htp-comments", "validator.class.htp-blank", "validator.class.htp-one", "option_history.reload-empty", "option_history.reload-empty-and-back",
             "option_history.reload-malformed", "option_history.update_failed", "option.unauthenticated_chunked_body_reaches_stream_threshold", "option.oversized_body", "safety.no_upstream_connection"]
 TECHNIQUE = "runtime monitoring: sans-io conversations with the real ProxyAuth addon, reference Basic parser/validators, tag + credential search on the wire"
 RULE = (
@@ -109,30 +113,54 @@ def make_pair(r, flavour):
     return user, pw
 
 
-def make_validator(r):
-    kind = r.choice(["single", "any", "any", "htpasswd", "htpasswd"])
-    if kind == "any":
-        return rb.RefAny(), "any", []
-    if kind == "single":
+# validator configuration classes (the fixed matrix runs every class on every path before the random cases)
+VCLASSES = ["any", "single", "htp-many", "htp-one", "htp-empty", "htp-comments", "htp-blank"]
+EMPTY_CLASSES = ("htp-empty", "htp-comments", "htp-blank")
+MATRIX_HISTORIES = {"reload-N-0": ("htp-many", "reload-empty"), "reload-N-0-N": ("htp-many", "reload-empty-and-back")}
+
+
+def empty_htpasswd_content(r, vclass, pairs=()):
+    """An htpasswd file that parses but has NO active user: empty, blank lines, or every user commented out."""
+    if vclass == "htp-empty":
+        return ""
+    if vclass == "htp-blank":
+        return r.choice(["\n", "\n\n   \n\t\n", "   \n"])
+    lines = ["# all users revoked"]
+    for u, p in (list(pairs) or [make_pair(r, "plain")]):
+        lines.append("#" + u + ":{SHA}" + base64.b64encode(__import__("hashlib").sha1(p.encode("utf-8")).digest()).decode("ascii"))
+    return "\n".join(lines) + "\n"
+
+
+def make_validator(r, vclass=None):
+    vclass = vclass or r.choice(["single", "any", "any", "htp-many", "htp-many", "htp-many", "htp-many", "htp-one", "htp-empty", "htp-comments"])
+    if vclass == "any":
+        return rb.RefAny(), "any", [], vclass
+    if vclass == "single":
         u, p = make_pair(r, r.choice(["plain", "plain", "nonascii", "empty"]))
-        return rb.RefSingle(u, p), f"{u}:{p}", [(u, p)]
+        return rb.RefSingle(u, p), f"{u}:{p}", [(u, p)], vclass
     pairs = {}
     bcrypt_users = []
-    for fl in ["plain", "colon", "colon", "nonascii", "empty"]:
-        u, p = make_pair(r, fl)
+    if vclass == "htp-many":
+        for fl in ["plain", "colon", "colon", "nonascii", "empty"]:
+            u, p = make_pair(r, fl)
+            pairs[u] = p
+        for fl in ["plain", r.choice(["colon", "nonascii", "plain"])]:
+            # bcrypt ($2b$) entries: their validator RAISES for passwords longer than 72 bytes
+            u, p = make_pair(r, fl)
+            pairs[u] = p
+            bcrypt_users.append(u)
+    elif vclass == "htp-one":
+        u, p = make_pair(r, r.choice(["plain", "colon", "nonascii"]))
         pairs[u] = p
-    for fl in ["plain", r.choice(["colon", "nonascii", "plain"])]:
-        # bcrypt ($2b$) entries: their validator RAISES for passwords longer than 72 bytes
-        u, p = make_pair(r, fl)
-        pairs[u] = p
-        bcrypt_users.append(u)
+        if r.random() < 0.4:
+            bcrypt_users.append(u)
     v = rb.RefHtpasswd(pairs, bcrypt_users, r)
     d = tmpdir()
     _TMP["n"] += 1
     path = os.path.join(d, f"htpasswd-{_TMP['n']}")
     with open(path, "w", encoding="utf-8") as f:
-        f.write(v.file_content())
-    return v, "@" + path, list(pairs.items())
+        f.write(empty_htpasswd_content(r, vclass) if vclass in EMPTY_CLASSES else v.file_content())
+    return v, "@" + path, list(pairs.items()), vclass
 
 
 def b64(s: str) -> str:
@@ -265,10 +293,20 @@ def classify(item, validator_kind, path):
     return None
 
 
-def run_case(ctx, tctx, chain):
+def run_case(ctx, tctx, chain, forced=None):
     r = ctx.rng
-    validator, optval, pairs = make_validator(r)
-    path = r.choice(PATHS)
+    forced_hist = None
+    if forced is not None:
+        # fixed matrix cell: (validator configuration class | reload history) x entry path
+        vc, path = forced
+        if vc in MATRIX_HISTORIES:
+            vc, forced_hist = MATRIX_HISTORIES[vc]
+        validator, optval, pairs, vclass = make_validator(r, vc)
+        ctx.count("matrix.cells")
+    else:
+        validator, optval, pairs, vclass = make_validator(r)
+        path = r.choice(PATHS)
+    ctx.count("validator.class." + vclass)
     mode = MODE_OF[path]
     fam = mode.split(":")[0]
     ctx.count("validator." + validator.kind)
@@ -287,11 +325,31 @@ def run_case(ctx, tctx, chain):
     # runtime history of the proxyauth option before the traffic: failing updates (bad spec, missing file) and failing RELOADS of
     # the same htpasswd spec after the file was left malformed / removed.  options.proxyauth keeps its value (rollback), so
     # authentication stays configured and the validator in force is still the one the reference models.
-    hist = r.choice(["none", "none", "none", "bad-spec", "missing-file", "reload-malformed", "reload-malformed", "reload-deleted"])
+    hist = r.choice(["none", "none", "none", "bad-spec", "missing-file", "reload-malformed", "reload-malformed", "reload-deleted", "reload-empty", "reload-empty", "reload-empty-and-back"])
     if hist.startswith("reload") and validator.kind != "htpasswd":
         hist = r.choice(["none", "bad-spec", "missing-file"])
+    if hist.startswith("reload-empty") and vclass in EMPTY_CLASSES:
+        hist = "none"
+    if forced is not None:
+        hist = forced_hist or "none"
     ctx.count("option_history." + hist)
-    if hist != "none":
+    if hist.startswith("reload-empty"):
+        # the operator revokes every user (comments them out / empties the file) and re-applies the option: the reload SUCCEEDS,
+        # proxyauth stays configured, nobody is valid any more -- and, for "-and-back", restores the users and reloads again
+        hp = optval[1:]
+        original = open(hp, encoding="utf-8").read()
+        with open(hp, "w", encoding="utf-8") as fh:
+            fh.write(empty_htpasswd_content(r, r.choice(EMPTY_CLASSES), pairs))
+        tctx.options.update(proxyauth=optval)
+        if hist == "reload-empty-and-back":
+            with open(hp, "w", encoding="utf-8") as fh:
+                fh.write(original)
+            tctx.options.update(proxyauth=optval)
+        else:
+            validator = rb.RefHtpasswd({}, (), r)
+            pairs = []
+            vclass = vclass + "->0"
+    elif hist != "none":
         if hist == "bad-spec":
             attempt = r.choice(["nocolonspec", "ldap:broken", "@"])
         elif hist == "missing-file":
@@ -611,9 +669,9 @@ def run_case(ctx, tctx, chain):
 
     kinds = sorted({(it.get("pres") or {}).get("kind") or "none" for it in items})
     special = any(it.get("pres") and it["pres"].get("pair") and (":" in it["pres"]["pair"][1] or any(ord(c) > 127 for c in "".join(it["pres"]["pair"]))) for it in items)
-    sig = (path, validator.kind, hist, tuple(kinds), min(n_acc, 3), min(n_ref, 3), stream_thr, size_limit, tuple(sorted({x.get("framing", "none") for x in items})))
-    sample = {"path": path, "proxyauth": optval if validator.kind != "htpasswd" else "htpasswd(5 users)", "items": [(it["what"], (it.get("pres") or {}).get("kind"), it["expect"]) for it in items], "client_got": down[:160]}
-    return sig, (n_acc > 0 and n_ref > 0) or special, sample
+    sig = (path, vclass, hist, tuple(kinds), min(n_acc, 3), min(n_ref, 3), stream_thr, size_limit, tuple(sorted({x.get("framing", "none") for x in items})))
+    sample = {"path": path, "proxyauth": optval if validator.kind != "htpasswd" else f"htpasswd file, class {vclass}, {len(pairs)} active users", "items": [(it["what"], (it.get("pres") or {}).get("kind"), it["expect"]) for it in items], "client_got": down[:160]}
+    return sig, (n_acc > 0 and n_ref > 0) or special or (not pairs and validator.kind == "htpasswd" and n_ref > 0), sample
 
 
 def run(ctx):
@@ -622,8 +680,10 @@ def run(ctx):
     chain = [addons[1], pa]
     keep = {k: getattr(tctx.options, k) for k in ("proxyauth", "connection_strategy", "stream_large_bodies", "body_size_limit", "store_streamed_bodies")}
     try:
+        matrix = [(vc, path) for vc in VCLASSES + sorted(MATRIX_HISTORIES) for path in sorted(set(PATHS))]
         for i in ctx.cases():
-            res = ctx.guard(run_case, ctx, tctx, chain, what="c20 case")
+            cell = i * ctx.nworkers + ctx.worker  # cell k of the fixed matrix is run by worker k % nworkers as its case k // nworkers
+            res = ctx.guard(run_case, ctx, tctx, chain, matrix[cell] if cell < len(matrix) else None, what="c20 case")
             if res is None:
                 ctx.case(("aborted",), False)
                 continue
